@@ -15,7 +15,7 @@ from ..report import Ctx
 from ..symeval import SymEval, is_const, show
 from ..tables import Poly
 from . import shared as SH
-from .util import drop_exit_facts, expand_ites, guard_text, is_self_call, leaves, mentions, subterms
+from .util import drop_exit_facts, expand_ites, guard_text, is_self_call, leaves, mentions, subterms, uncond
 
 
 class DecoderModel:
@@ -517,7 +517,7 @@ def _naming_field_form(eng: Engine, ctx: Ctx, rid: str, model: DecoderModel, nam
     # pushed index = the value stored into the index stack in the same iteration
     idx_sets = [e for e in sg.effects if e.kind == "setitem" and e.loops == (lid,) and e.target[0] == "item" and e.target[2] == ("const", -1)]
     X = pe.term[3][1][1][1]
-    ctx.check(len(idx_sets) == 1 and idx_sets[0].term == X and not pe.guards, rid, g.qualname, "pushed index", expected="the index stored in the index stack for this iteration, pushed unconditionally",
+    ctx.check(len(idx_sets) == 1 and idx_sets[0].term == X and uncond(pe), rid, g.qualname, "pushed index", expected="the index stored in the index stack for this iteration, pushed unconditionally",
               found=f"{show(X)[:60]} vs index store {show(idx_sets[0].term)[:60] if idx_sets else '-'}", **eng.loc(g, pe.node))
     # pop: F = F[:-k] after the nested calls, k = pushed length for EVERY index
     t = qe.term
@@ -825,7 +825,8 @@ def groups(eng: Engine, ctx: Ctx, rid6: str, rid7: str, rid8: str, model: Decode
         elem = ("elem", it, lid)
         want_idx = elem if first == 1 else (("bin", "+", elem, ("const", 1 - first)) if first is not None and first < 1 else None)
         oki = (len(pushes) == 1 and len(pops) == 1 and len(sets) == 1 and want_idx is not None and sets[0].term == want_idx and pushes[0].seq < sets[0].seq < pops[0].seq
-               and pops[0].term[2][1][0] in ("loopout", "param"))
+               and pops[0].term[2][1][0] in ("loopout", "param")
+               and set(map(frozenset, pushes[0].dnf)) == set(map(frozenset, pops[0].dnf)))  # pushed and popped on the same paths (a level pushed under a condition is not popped blindly)
         functional = False
         if not oki and not pushes and not pops and not sets and want_idx is not None:
             # functional form: every repeat gets a fresh copy `index + [i]` of the caller's stack, the caller's own list is never touched and is what is returned
@@ -924,7 +925,7 @@ def groups(eng: Engine, ctx: Ctx, rid6: str, rid7: str, rid8: str, model: Decode
             return shape if t == want_adef else None
         s2 = eng.symeval(d.qualname, override=ov)
         calls = [e for e in s2.effects if e.kind == "call" and e.term[2][0] == "attr" and e.term[2][1] == ("self",)]
-        ok = len(calls) == 1 and calls[0].term[2][2] == target[kind] and not calls[0].guards
+        ok = len(calls) == 1 and calls[0].term[2][2] == target[kind] and uncond(calls[0])
         ctx.check(ok, rid8, d.qualname, f"{kind} definition", expected=f"exactly one call of {target[kind]}", found=", ".join(f"{c.term[2][2]} under {guard_text(c.guards)[:40]}" for c in calls) or "no call", **eng.loc(d, d.node))
         if ok and kind != "single":
             ctx.check(calls[0].term[3][0] == shape, rid8, d.qualname, f"{kind}: definition handed on", expected="the (designator, dict) tuple", found=show(calls[0].term[3][0])[:60], **eng.loc(d, d.node))
